@@ -1587,6 +1587,9 @@ func (e *Entry) dup() *Entry {
 		ne.Extra[k] = v
 	}
 
+	// Deviations append to the defaults of a leaf-list in place.
+	ne.Default = append([]string(nil), e.Default...)
+
 	// Likewise the input and output of an rpc or action are entries of
 	// their own that belong to exactly one parent.
 	if e.RPC != nil {
